@@ -68,6 +68,40 @@ def run(ctx):
             got[facts[-1]] = src(r.value)
     for cond, val in want.items():
         ctx.ob("R-SIB", "C19.2", enc, f"encoder: {cond} -> {val}", got.get(cond) == val, f"got {got.get(cond)}")
+    # no branch of the encoder can raise for a value the fallback would have turned into a string: an attribute of
+    # the object is read only where the branch guard implies it exists (the numpy methods under their isinstance
+    # tests), under a hasattr / getattr-with-default, or inside a try
+    implied_ = {"tolist": ("ndarray", "generic", "integer", "floating", "number"), "item": ("ndarray", "generic", "integer", "floating", "number"), "total_seconds": ("timedelta",), "isoformat": ("datetime", "date")}
+    n_attr_ = 0
+    for n_ in walk_no_nested(enc.node):
+        if not (isinstance(n_, ast.Attribute) and isinstance(n_.value, ast.Name) and n_.value.id == o and isinstance(n_.ctx, ast.Load)):
+            continue
+        n_attr_ += 1
+        facts_ = guard_facts(ea, ea.cfg.id_of(n_))
+        def implies_(e_, attr_=n_.attr):
+            """the (true) test e_ guarantees that `obj.<attr_>` exists"""
+            if isinstance(e_, ast.BoolOp):
+                return all(implies_(v_) for v_ in e_.values) if isinstance(e_.op, ast.Or) else any(implies_(v_) for v_ in e_.values)
+            if not (isinstance(e_, ast.Call) and e_.args and src(e_.args[0]) == o):
+                return False
+            fn_ = (call_name(e_) or "").split(".")[-1]
+            if fn_ == "hasattr":
+                return len(e_.args) == 2 and isinstance(e_.args[1], ast.Constant) and e_.args[1].value == attr_
+            if fn_ == "isinstance" and len(e_.args) == 2:
+                tys_ = [src(y_).split(".")[-1] for y_ in (e_.args[1].elts if isinstance(e_.args[1], ast.Tuple) else [e_.args[1]])]
+                if attr_ in implied_:
+                    return all(t_ in implied_[attr_] for t_ in tys_)
+                if attr_ in ("__module__", "__qualname__", "__name__"):
+                    return all(t_ in ("type", "FunctionType", "BuiltinFunctionType", "MethodType", "LambdaType") for t_ in tys_)
+                return False
+            if fn_ in ("isfunction", "isclass", "isbuiltin", "isroutine", "ismethod"):
+                return attr_ in ("__module__", "__qualname__", "__name__")
+            return False
+
+        ok_ = any(t_ and implies_(e_) for e_, t_ in facts_)
+        ok_ = ok_ or any(isinstance(t_, ast.Try) and any(x_ is n_ for b_ in t_.body for x_ in ast.walk(b_)) and any(h_.type is None or any(k_ in src(h_.type) for k_ in ("AttributeError", "Exception")) for h_ in t_.handlers) for t_ in ast.walk(enc.node))
+        ctx.ob("R-ORDER", "C19.2", enc, "the encoder reads an attribute of the object only where its guard implies the attribute exists (else the fallback to str is never reached: json.dump raises mid-file)", ok_, f"`{src(n_)}` under {[(src(e_)[:40], t_) for e_, t_ in facts_]}", node=n_)
+    ctx.require(n_attr_ >= 1, "no attribute read on the encoded object found (obj.tolist() expected)")
     ij = ctx.fn(IO + ":is_jsonable")
     ctx.ob("R-SIB", "C19.2", ij, "is_jsonable tries json.dumps and treats TypeError / OverflowError as not serialisable", len(find_expr("json.dumps($x)", ij.node)) == 1 and any(isinstance(n, ast.ExceptHandler) and "TypeError" in src(n.type) for n in ast.walk(ij.node)), "")
     sj = ctx.fn(IO + ":save_to_json")
